@@ -246,6 +246,15 @@ class Disposable:
         self.exit_err: BaseException | None = None
         self.enter_err: BaseException | None = None
 
+    def __eq__(self, other: object) -> bool:
+        # resources described by value (a dataclass connection: two of them to the same address compare equal) are still two resources
+        if isinstance(other, Disposable) and self.spec.get("equal") and other.spec.get("equal"):
+            return True
+        return self is other
+
+    def __hash__(self) -> int:
+        return 7 if self.spec.get("equal") else id(self)
+
     def __len__(self) -> int:
         # a resource may have a length of its own (a pool: its open connections) - and then be falsy until it is entered
         return 1 if (self.enter_done or not self.spec.get("falsy")) else 0
@@ -1003,6 +1012,15 @@ async def run_block(W: World, block: dict[str, Any], rng: random.Random | None) 
                 from haiway import Disposables
 
                 kw["disposables"] = Disposables(*ds)
+            elif container == "raising-generator":
+                # the iterable of resources fails while it is being collected (a bad configuration entry after the first resource):
+                # a user error of whoever builds the scope - wherever it surfaces, nothing of that scope may stay behind
+                def configured() -> Any:
+                    yield ds[0]
+                    W.event("disposables-config-error", name)
+                    raise DispErr(f"{name}.configuration")
+
+                kw["disposables"] = configured()
             else:
                 kw["disposables"] = {"list": lambda: ds, "tuple": lambda: tuple(ds), "generator": lambda: (d for d in ds), "iter": lambda: iter(ds),
                                      "filter": lambda: filter(lambda d: True, ds), "map": lambda: map(lambda d: d, ds), "dict-keys": lambda: {d: None for d in ds}.keys()}[container]()
@@ -1014,11 +1032,15 @@ async def run_block(W: World, block: dict[str, Any], rng: random.Random | None) 
         W.event("construct", name)
         for lg in W.off_loggers:
             lg.disabled = True
+        built = False
         try:
             cm = W.prepared.pop(name) if block.get("prepared") else ctx.scope(block.get("scope_name", name), *states, **kw)
+            built = True
         finally:
             for lg in W.off_loggers:
                 lg.disabled = False
+            if not built:
+                left()  # building the scope failed: there is no scope, the block is over
         entered = False
         try:
             await cm.__aenter__()
